@@ -173,54 +173,95 @@ func condOnValue(cond ssa.Value, isV func(ssa.Value) bool) (posSucc int, ok bool
 }
 
 // unwrapLoadFree forwards a load of a local cell (a variable that lives in an Alloc because it is captured or
-// address-taken) to the value most recently stored into it: the nearest preceding Store in the same block, else
-// the unique Store that dominates the load. Other values are returned unchanged.
+// address-taken) to the unique Store that reaches it: walking the CFG backwards from the load, the first Store to the
+// cell met on every path must be one and the same instruction, and no call that receives a closure capturing the cell
+// (which could assign it) may be met first. Other values are returned unchanged.
 func unwrapLoadFree(v ssa.Value) ssa.Value {
 	for i := 0; i < 4; i++ {
 		u, ok := v.(*ssa.UnOp)
 		if !ok || u.Op != token.MUL {
 			return v
 		}
-		root := rootAddr(u.X)
-		al, ok := root.(*ssa.Alloc)
-		if !ok {
+		al, ok := rootAddr(u.X).(*ssa.Alloc)
+		if !ok || al.Parent() != u.Parent() {
 			return v
 		}
-		blk := u.Block()
-		var found ssa.Value
-		for k := instrIndex(u) - 1; k >= 0; k-- {
-			if st, ok := blk.Instrs[k].(*ssa.Store); ok && rootAddr(st.Addr) == al {
-				found = st.Val
-				break
-			}
-		}
-		if found == nil {
-			var cands []*ssa.Store
-			for _, st := range storesInto(al) {
-				if st.Parent() == u.Parent() {
-					cands = append(cands, st)
-				} else {
-					cands = append(cands, st) // stored from another (nested) function: cannot forward
-					return v
-				}
-			}
-			// the nearest dominating store such that no other store lies between: accept only a single dominating store
-			var dom []*ssa.Store
-			for _, st := range cands {
-				if st.Block() != blk && st.Block().Dominates(blk) {
-					dom = append(dom, st)
-				}
-			}
-			if len(dom) == 1 && len(cands) == 1 {
-				found = dom[0].Val
-			}
-		}
-		if found == nil {
+		st := reachingStore(u, al)
+		if st == nil {
 			return v
 		}
-		v = found
+		v = st.Val
 	}
 	return v
+}
+
+// mayAssignCell: the instruction could assign the cell other than by a direct Store: a call that is handed a closure
+// capturing the cell, or the cell's address.
+func mayAssignCell(in ssa.Instruction, al *ssa.Alloc) bool {
+	call, ok := in.(ssa.CallInstruction)
+	if !ok {
+		return false
+	}
+	cc := call.Common()
+	args := cc.Args
+	if !cc.IsInvoke() {
+		args = append([]ssa.Value{cc.Value}, args...)
+	}
+	for _, a := range args {
+		if a == ssa.Value(al) {
+			return true
+		}
+		if mc, ok := a.(*ssa.MakeClosure); ok {
+			for _, b := range mc.Bindings {
+				if rootAddr(b) == ssa.Value(al) {
+					return true
+				}
+			}
+		}
+	}
+	return false
+}
+
+func reachingStore(load *ssa.UnOp, al *ssa.Alloc) *ssa.Store {
+	var found *ssa.Store
+	fail := false
+	visited := map[*ssa.BasicBlock]bool{}
+	var scan func(b *ssa.BasicBlock, from int)
+	scan = func(b *ssa.BasicBlock, from int) {
+		if fail {
+			return
+		}
+		for k := from; k >= 0; k-- {
+			in := b.Instrs[k]
+			if st, ok := in.(*ssa.Store); ok && rootAddr(st.Addr) == ssa.Value(al) {
+				if found != nil && found != st {
+					fail = true
+				}
+				found = st
+				return
+			}
+			if mayAssignCell(in, al) {
+				fail = true
+				return
+			}
+		}
+		if len(b.Preds) == 0 {
+			fail = true // reaches function entry without a store: zero value
+			return
+		}
+		for _, p := range b.Preds {
+			if visited[p] {
+				continue
+			}
+			visited[p] = true
+			scan(p, len(p.Instrs)-1)
+		}
+	}
+	scan(load.Block(), instrIndex(load)-1)
+	if fail {
+		return nil
+	}
+	return found
 }
 
 // EdgesOnValue returns (posEdges, negEdges): branch edges in fn where value matching isV is known
